@@ -111,7 +111,11 @@ class Runner:
             rtsyms |= set(re.findall(r'\b(ext_\w+)\s*\(', open(os.path.join(RT, f)).read()))
         hsyms = set()
         for hp in self.hpaths(u):
-            hsyms |= set(re.findall(r'\b((?:ext_|hook_|__verif_)\w+)\s*\(', open(hp).read()))
+            txt = open(hp).read()
+            for incf in re.findall(r'#include "([^"]+)"', txt):     # harness sources that are composed of another harness file of the same property
+                ip = os.path.join(os.path.dirname(hp), incf)
+                if os.path.exists(ip): txt += open(ip).read()
+            hsyms |= set(re.findall(r'\b((?:ext_|hook_|__verif_)\w+)\s*\(', txt))
         unmod = [n for n, c in meta['externals'].items()
                  if c not in rtsyms and c not in hsyms and n not in meta['inert'] and not n.startswith('__verif_')]
         if unmod:
